@@ -680,6 +680,21 @@ class ExprBuilder:
                     rest_ = rest_[1:]
             return x, rest_
 
+        # `(phi(None | Some{v}))@Some.0`: the payload of the alternative that has that variant
+        if len(rest) >= 2 and rest[0]["k"] == "downcast" and rest[1]["k"] == "field" and rest[1].get("idx") is not None:
+            alts = e[2] if e[0] == "phi" else ((e,) if e[0] == "agg" else ())
+            if alts and all(a[0] == "agg" and a[1] == "adt" for a in alts):
+                hit = [a for a in alts if a[3] == rest[0].get("variant")]
+                if len(hit) == 1 and rest[1]["idx"] < len(hit[0][5]):
+                    e = hit[0][5][rest[1]["idx"]]
+                    rest = rest[2:]
+                    while rest and rest[0]["k"] == "deref" and e[0] == "ref":
+                        e = e[2]
+                        rest = rest[1:]
+                    if e[0] == "place":
+                        return ("place", _norm_self(e[1] + proj_str(rest)), p["ty"])
+                    if not rest:
+                        return e
         if rest and rest[0]["k"] == "field":
             if e[0] == "agg" and e[1] == "tuple":
                 e, rest = component(e, rest)
